@@ -359,13 +359,6 @@ theorem runCommand_reverse (fuel : Nat) (inp : Input) (c : Bst.Command) (s : St)
   | [] :: _ :: _ => rfl
   | (_ :: _) :: _ :: _ => rfl
 
-/-- the sort key of a citation: the entry variable `sort.key$` of its frame (empty when never
-assigned); `none` = not a string -/
-def sortKeyOf (s : St) (c : Str) : Option Str :=
-  match dget (frameOf s c) "sort.key$".toList with
-  | some v => valToStr v
-  | none => some []
-
 theorem mapM_keyed (G : Str → Option (Str × Str)) (g : Str → Option Str)
     (hG : ∀ c, G c = (g c).map fun k => (k, c)) (cits : List Str) (l : List (Str × Str))
     (h : cits.mapM G = some l) :
